@@ -340,7 +340,7 @@ Qed.
 
 Lemma stop_spec s pl l rest off x ea :
   WFruns s ((pl ++ l) ++ rest) -> total (pl ++ l) = off -> 0 <= x -> x + flag ea <= total rest ->
-  Post pl (off + x) (dense_stop (flat ((pl ++ l) ++ rest)) (off + x) ea) (stop_code s off x (total pl) ea).
+  Post pl (if ea =? 0 then total pl else off + x) (dense_stop (flat ((pl ++ l) ++ rest)) (off + x) ea) (stop_code s off x (total pl) ea).
 Proof.
   intros WF Hb Hx Ht.
   assert (T0 : 0 <= total l).
@@ -357,11 +357,13 @@ Qed.
 
 Lemma mid_spec s pl l rest off x mid maxv ea :
   WFruns s ((pl ++ l) ++ rest) -> total (pl ++ l) = off -> 0 <= x -> 0 <= mid -> x + mid + flag ea <= total rest ->
-  Post pl (off + x + mid) (dense_mid (flat ((pl ++ l) ++ rest)) (off + x) mid maxv ea) (mid_code s off x (total pl) mid maxv ea).
+  Post pl (if (mid =? 0) && (ea =? 0) then total pl else off + x + mid)
+       (dense_mid (flat ((pl ++ l) ++ rest)) (off + x) mid maxv ea) (mid_code s off x (total pl) mid maxv ea).
 Proof.
   intros WF Hb Hx Hm Ht. unfold mid_code, dense_mid. destruct (mid =? 0) eqn:Em.
-  - apply Z.eqb_eq in Em. subst mid. cbn [bind Z.to_nat upd_range]. rewrite Z.add_0_r. apply stop_spec; auto. lia.
-  - apply Z.eqb_neq in Em. assert (Hf : 0 <= flag ea) by (unfold flag; destruct (ea =? 0); lia).
+  - apply Z.eqb_eq in Em. subst mid. cbn [bind Z.to_nat upd_range andb]. replace (off + x + 0) with (off + x) by lia. apply stop_spec; auto. lia.
+  - change (false && (ea =? 0)) with false. cbv iota.
+    apply Z.eqb_neq in Em. assert (Hf : 0 <= flag ea) by (unfold flag; destruct (ea =? 0); lia).
     destruct (phase_mid maxv s (pl ++ l) rest off x mid WF Hb Hx ltac:(lia) ltac:(lia)) as (s1 & E & M).
     rewrite E. cbn [bind]. destruct (mid_loop (S (length (ar_runs s1))) s1 (off + x) mid maxv) as [[s2 off2]|].
     + destruct M as (Ho & pre' & rest' & WF' & T1 & T3 & (l' & Hl') & D). cbn [bind].
@@ -373,20 +375,22 @@ Proof.
       replace (off + x + mid) with (off2 + 0) by lia.
       apply (Post_weaken pl (l ++ l')).
       pose proof (stop_spec s2 (pl ++ l ++ l') [] rest' off2 0 ea) as SS. rewrite !app_nil_r, T1 in SS.
+      assert (U : (if ea =? 0 then off2 else off2 + 0) = off2 + 0) by (destruct (ea =? 0); lia). rewrite U in SS.
       apply SS; auto; lia.
     + cbn [bind Post]. unfold f_mid. rewrite M. reflexivity.
 Qed.
 
 Theorem add_refines_dense s pre rest x sa mid ea maxv :
   WFruns s (pre ++ rest) -> total pre <= x -> 0 <= mid -> (x - total pre) + flag sa + mid + flag ea <= total rest ->
-  Post pre (x + flag sa + mid) (dense_add (flat (pre ++ rest)) x sa mid ea maxv) (ar_add s x sa mid ea maxv (total pre)).
+  Post pre (if (mid =? 0) && (ea =? 0) then total pre else x + flag sa + mid)
+       (dense_add (flat (pre ++ rest)) x sa mid ea maxv) (ar_add s x sa mid ea maxv (total pre)).
 Proof.
   intros WF Hx Hm Ht. rewrite ar_add_phases, dense_add_phases.
   destruct (x <? total pre) eqn:El; [apply Z.ltb_lt in El; lia|]. clear El.
   assert (Hfe : 0 <= flag ea) by (unfold flag; destruct (ea =? 0); lia).
   remember (x - total pre) as xr eqn:Exr. assert (Ex : x = total pre + xr) by lia. clear Exr. subst x.
   unfold flag at 1 in Ht. unfold flag at 1. destruct (sa =? 0) eqn:Es; cbn [bind].
-  - rewrite Z.add_0_r.
+  - replace (total pre + xr + 0) with (total pre + xr) by lia.
     pose proof (mid_spec s pre [] rest (total pre) xr mid maxv ea) as M. rewrite !app_nil_r in M.
     apply M; auto; lia.
   - destruct (phase_point (f_start sa) s pre rest (total pre) xr WF eq_refl ltac:(lia) ltac:(lia)) as (s1 & l1 & a & l3 & E & Ha & T1 & T3 & D & W).
@@ -425,15 +429,23 @@ Fixpoint dense_adds (d : list Z) (calls : list call) : option (list Z) :=
   | [] => Some d
   | (x, sa, mid, ea, maxv) :: r => do d' <- dense_add d x sa mid ea maxv; dense_adds d' r
   end.
-(* the spans of one scanline come left to right: each call starts at or after the stop pixel of the previous one *)
+(* the spans of one scanline come left to right: each call starts at or after the stop pixel of the previous one (a call
+   with neither middle pixels nor a stop pixel lies inside one pixel, and the next call may start in that same pixel) *)
+Definition next_lo (lo : Z) (c : call) : Z :=
+  let '(x, sa, mid, ea, maxv) := c in if (mid =? 0) && (ea =? 0) then lo else x + flag sa + mid.
 Fixpoint calls_ok (lo width : Z) (calls : list call) : Prop :=
   match calls with
   | [] => True
-  | (x, sa, mid, ea, maxv) :: r => lo <= x /\ 0 <= mid /\ x + flag sa + mid + flag ea <= width /\ calls_ok (x + flag sa + mid) width r
+  | (x, sa, mid, ea, maxv) :: r =>
+      lo <= x /\ 0 <= mid /\ x + flag sa + mid + flag ea <= width /\ calls_ok (next_lo lo (x, sa, mid, ea, maxv)) width r
   end.
 
 Lemma calls_ok_mono width : forall calls lo lo', lo' <= lo -> calls_ok lo width calls -> calls_ok lo' width calls.
-Proof. destruct calls as [|[[[[x sa] mid] ea] maxv] r]; intros lo lo' H C; [exact I|]. cbn [calls_ok] in *. intuition lia. Qed.
+Proof.
+  induction calls as [|[[[[x sa] mid] ea] maxv] r IH]; intros lo lo' H C; [exact I|]. cbn [calls_ok] in *.
+  destruct C as (C1 & C2 & C3 & C4). split; [lia|]. split; [exact C2|]. split; [exact C3|].
+  unfold next_lo in *. destruct ((mid =? 0) && (ea =? 0)); [apply (IH lo lo' H C4) | exact C4].
+Qed.
 
 Lemma dense_add_length d x sa mid ea maxv d' : dense_add d x sa mid ea maxv = Some d' -> length d' = length d.
 Proof.
@@ -467,7 +479,8 @@ Proof.
       - now rewrite D.
       - destruct WF as (R & _). exact (Rep_pos _ _ _ _ R).
       - destruct WF' as (R & _). exact (Rep_pos _ _ _ _ R). }
-    apply (IH s' pre' rest' (x + flag sa + mid) WF'); [lia|]. rewrite TT. exact C4.
+    apply (IH s' pre' rest' (next_lo lo (x, sa, mid, ea, maxv)) WF'); [|rewrite TT; exact C4].
+    unfold next_lo. destruct ((mid =? 0) && (ea =? 0)); lia.
 Qed.
 
 (* a fresh row: AlphaRuns::new(width) is one run of alpha 0 *)
